@@ -95,6 +95,14 @@ def file_chain_cases(rng, n):
             # the base repeats one of its subtrees under further keys (written with a YAML anchor and aliases)
             k0 = rng.choice(sorted(layers[0]))
             layers[0] = dict(layers[0], zz1=layers[0][k0], zz2={"in": layers[0][k0]})
+            # ... and the upper layers edit the subtree at ONE of its places (the anchor's or an alias's): the others keep their value
+            for i in range(1, len(layers)):
+                if isinstance(layers[i], dict) and k0 in layers[i]:
+                    r = rng.random()
+                    if r < 0.4:
+                        layers[i] = {("zz1" if k == k0 else k): v for k, v in layers[i].items()}
+                    elif r < 0.7:
+                        layers[i] = {("zz2" if k == k0 else k): ({"in": v} if k == k0 else v) for k, v in layers[i].items()}
         layout, top = fscheck.chain_layout(rng, layers, share=share)
         out.append({"layout": layout, "opts": {"inputs": [top], "format": "json"}, "meta": {"kind": ("null-layer" if None in layers else "plain") + ("+anchors" if share else "")}})
     return out
